@@ -125,6 +125,7 @@ class CursorAnalysis:
         self._empty_cache = {}
         self.analysed = set()
         self.loops = {}       # (qualname, lineno) -> info
+        self.esc_sites = set()  # (qualname, lineno) of eat(<escape character>) calls seen
 
     def token_classes(self):
         if not hasattr(self, '_tcs'):
@@ -280,6 +281,22 @@ class CursorClient(Client):
     def setcur(self, s, c, facts):
         return s.set(('cur', c), facts)
 
+    def examined(self, s, c):
+        """the character at the cursor was looked at (peek / eat / consume / a callee that received the cursor)"""
+        return s.drop_if(lambda k, v: k[0] == 'fresh' and k[2] == c)
+
+    def blind_step(self, s, c, node, construct):
+        """a step that does not look at the character it passes; as the first cursor action of a loop iteration it means that the
+        position the iteration started at is never examined"""
+        fresh = [k for k in s.facts if k[0] == 'fresh' and k[2] == c]
+        if fresh:
+            self.an.report.bad('SCN-BLIND', self.f, node, construct,
+                               'the first thing an iteration of the scanning loop (line %d) does is to step over a character without looking at it: '
+                               'whatever the loop searches for is never recognised at the position the loop was entered with' % fresh[0][1], s)
+        elif any(k[0] == 'lp' and k[2] == c for k in s.facts):
+            self.an.report.ok('SCN-BLIND', self.f, construct)
+        return self.examined(s, c)
+
     def kill_peeks(self, s, c):
         return s.drop_if(lambda k, v: (k[0] in ('peek', 'peekfn') and v[0] == c) or (k[0] == 'peeksat' and k[1] == c))
 
@@ -309,6 +326,7 @@ class CursorClient(Client):
             nfr, nbr = rinc(fr, -k), rdec(br, -k)
         s = self.setcur(s, c, (nd, nfr, nbr))
         s = self.kill_peeks(s, c)
+        s = s.drop(('esc', c))
         # loop progress markers
         for key, v in list(s.facts.items()):
             if key[0] == 'lp' and key[2] == c:
@@ -318,6 +336,7 @@ class CursorClient(Client):
     def unknown_move(self, s, c):
         s = self.setcur(s, c, ('U', None, None))
         s = self.kill_peeks(s, c)
+        s = s.drop(('esc', c))
         for key, v in list(s.facts.items()):
             if key[0] == 'lp' and key[2] == c:
                 s = s.set(key, 'U')
@@ -325,6 +344,7 @@ class CursorClient(Client):
 
     def apply_outcome(self, s, c, o):
         """caller facts after a callee outcome"""
+        s = self.examined(s, c)
         d, fr, br = self.cur(s, c)
         if o.d == 'Z':
             return s          # position unchanged: every fact survives
@@ -434,7 +454,7 @@ class CursorClient(Client):
         if isinstance(target, ast.Name):
             name = target.id
             s = s.drop(('snap', name)).drop(('peek', name)).drop(('peekfn', name)).drop(('bool', name)).drop(('val', name)) \
-                 .drop(('intfact', name)).drop(('lsnap', name)).drop(('cond', 'len', name)).drop(('nonempty', name)).drop(('elem', name)).drop(('cnt', name))
+                 .drop(('intfact', name)).drop(('lsnap', name)).drop(('cond', 'len', name)).drop(('nonempty', name)).drop(('elem', name)).drop(('cnt', name)).drop(('ge1', name))
             if name in self.cursors and not isinstance(value, tuple):
                 # creation / re-binding of a cursor
                 return [self._bind_cursor(s, name, value, stmt)]
@@ -615,12 +635,14 @@ class CursorClient(Client):
                                    'that character is never tested against the other alternatives of the loop (e.g. the `*` of a closing `**/`)' % ate, s)
             elif in_loop:
                 self.an.report.ok('SCN-SKIP', self.f, construct)
+            if forward_step:
+                s = self.blind_step(s, c, stmt, construct)
             return [self.move(s, c, k, stmt)]
         self.check_reads(s, stmt.value, stmt)
         if isinstance(stmt.target, ast.Name):
             n = stmt.target.id
             cnt = s.get(('cnt', n))
-            s = s.drop(('snap', n)).drop(('peek', n)).drop(('bool', n)).drop(('val', n)).drop(('intfact', n)).drop(('cnt', n))
+            s = s.drop(('snap', n)).drop(('peek', n)).drop(('bool', n)).drop(('val', n)).drop(('intfact', n)).drop(('cnt', n)).drop(('ge1', n))
             # small counter domain: a local that starts at a constant >= 0 and only grows by positive constants
             # (values 0, 1, "2 or more") - enough to correlate `count == 0` with "the loop never ran"
             k = self.p.try_const(self.f, stmt.value)
@@ -651,6 +673,16 @@ class CursorClient(Client):
             tstate = self.refine_room(s, c, FWD)
             fstates = [] if (fr is not None and fr >= 1) else [K(s, FNN)]
             return [K(tstate, T)], fstates
+        if m in ('peek', 'prev', 'cur', 'eat', 'consume', 'eat_while', 'consume_while'):
+            s = self.examined(s, c)
+        if m in ('next', 'previous'):
+            par = self.p.parents(self.f).get(call)
+            while isinstance(par, (ast.UnaryOp, ast.BoolOp)):
+                par = self.p.parents(self.f).get(par)
+            if isinstance(par, ast.Expr) or (isinstance(par, (ast.While, ast.If, ast.IfExp)) and any(x is call for x in ast.walk(par.test))):
+                s = self.blind_step(s, c, call, src_of(call))
+            else:
+                s = self.examined(s, c)
         if m in ('peek', 'prev', 'cur'):
             dd = dirn if m == 'peek' else (BWD if m == 'prev' else FWD)
             room = fr if dd == FWD else br
@@ -666,7 +698,7 @@ class CursorClient(Client):
                 fs = [] if (room is not None and room >= 1) else [K(self.move(s, c, 1), NONE)]
                 return ts, fs
             ts = [K(self.move(self.refine_room(s, c, FWD if step > 0 else BWD), c, step), T)]
-            fs = [] if (room is not None and room >= 1) else [K(s, NONE)]
+            fs = [] if (room is not None and room >= 1) else [K(s.drop(('esc', c)), NONE)]     # at the bound: nothing left that could be escaped
             return ts, fs
         if m in ('eat', 'consume') and call.args:
             step = 1 if dirn == FWD else -1
@@ -681,8 +713,12 @@ class CursorClient(Client):
             pre = s if (acc or (step < 0 and br is None)) else self.refine_room(s, c, FWD if step > 0 else BWD)
             moved = self.move(pre, c, step)
             asrc = src_of(a0)
-            if not any(w in asrc for w in ('escape', 'Escape', 'Backslash')):
+            is_esc = any(w in asrc for w in ('escape', 'Escape', 'Backslash')) or self.p.try_const(self.f, a0) in ('\\', 92)
+            if not is_esc:
                 moved = moved.set(('ate', c), asrc)
+            else:
+                moved = moved.set(('esc', c), call.lineno)       # the escape character was consumed: the next character is escaped
+                self.an.esc_sites.add((self.f.qualname, call.lineno))
             ts = [K(moved, T)]
             return ts, [K(s, FNN)]
         if m in ('eat_while', 'consume_while') and call.args:
@@ -820,6 +856,23 @@ class CursorClient(Client):
     def _compare1(self, s, expr):
         if len(expr.ops) == 1:
             a, b, op = expr.left, expr.comparators[0], expr.ops[0]
+            # a length whose range() loop has been entered is at least 1
+            for x, y, flip in ((a, b, False), (b, a, True)):
+                if isinstance(x, ast.Name) and s.get(('ge1', x.id)):
+                    c_ = self.p.try_const(self.f, y)
+                    if isinstance(c_, int) and not isinstance(c_, bool):
+                        opn = type(op)
+                        if flip:
+                            opn = {ast.Lt: ast.Gt, ast.Gt: ast.Lt, ast.LtE: ast.GtE, ast.GtE: ast.LtE}.get(opn, opn)
+                        res_ = None
+                        if c_ <= 0:
+                            res_ = {ast.Eq: False, ast.NotEq: True, ast.Lt: False, ast.LtE: False, ast.Gt: True, ast.GtE: True}.get(opn)
+                        elif c_ == 1:
+                            res_ = {ast.Lt: False, ast.GtE: True}.get(opn)
+                        if res_ is True:
+                            return [s], []
+                        if res_ is False:
+                            return [], [s]
             # counter  <op>  small constant
             for x, y, flip in ((a, b, False), (b, a, True)):
                 if isinstance(x, ast.Name) and s.get(('cnt', x.id)) is not None:
@@ -1169,9 +1222,6 @@ class CursorClient(Client):
                 kind = UNK
             if truth and lk == UNK:
                 kind = UNK
-            if not truth and isinstance(expr, ast.Compare) and not self._cursor_related(expr, s):
-                # `return n > 0` over values the cursor domain does not track: which paths make it false is not known here
-                kind = UNK
             self._check_ctor(s, expr, stmt)
         else:
             self.check_reads(s, value, stmt)
@@ -1223,6 +1273,11 @@ class CursorClient(Client):
                     and n.func.attr in ('eof', 'readable', 'sol'):
                 c = self.cursor_of(n.func.value)
                 res = (c, BWD if n.func.attr == 'sol' else FWD)
+            elif res is None and isinstance(n, ast.Call) and isinstance(n.func, ast.Attribute) and self.cursor_of(n.func.value) is not None \
+                    and n.func.attr in ('next', 'previous') and not n.args:
+                # `while cursor.next():` is bounded by the cursor too (next() returns None at the bound)
+                c = self.cursor_of(n.func.value)
+                res = (c, FWD if (n.func.attr == 'next') == (self.direction(c) == FWD) else BWD)
             elif isinstance(n, ast.Compare) and len(n.ops) == 1:
                 for x, y in ((n.left, n.comparators[0]), (n.comparators[0], n.left)):
                     c = self.is_pos(x)
@@ -1243,7 +1298,7 @@ class CursorClient(Client):
             return s
         c, dirn = lc
         lid = loop.lineno
-        s = s.set(('lp', lid, c), 'Z').drop(('ate', c))
+        s = s.set(('lp', lid, c), 'Z').drop(('ate', c)).set(('fresh', lid, c), True)
         # snapshots taken before this iteration are not comparable with the marker
         s = s.drop_if(lambda k, v: k[0] == 'lpsnap' and k[1] == lid)
         self.an.loops.setdefault((self.f.qualname, lid), {'cursor': c, 'dir': dirn, 'ok': 0, 'func': self.f, 'node': loop})
@@ -1261,13 +1316,19 @@ class CursorClient(Client):
         v = s.get(('lp', lid, c))
         good = 'P' if dirn == FWD else 'N'
         info = self.an.loops[(self.f.qualname, lid)]
+        if s.get(('esc', c)) is not None:
+            self.an.report.bad('SCN-ESCAPE', self.f, loop, 'while %s' % src_of(loop.test),
+                               'a path consumes the escape character (line %d) and reaches the next iteration without consuming the character after it: '
+                               'the escaped character is then examined like an ordinary one (an escaped quote ends the string)' % s.get(('esc', c)), s)
+        else:
+            self.an.report.ok('SCN-ESCAPE', self.f, 'while %s' % src_of(loop.test))
         if v != good:
             self.an.report.bad('SCN-PROGRESS', self.f, loop, 'while %s' % src_of(loop.test),
                                'a path through the loop body reaches the back edge without moving the cursor %s (displacement %s): the loop may not terminate'
                                % ('forward' if dirn == FWD else 'backward', v), s, undecided=(v == 'U'))
         else:
             info['ok'] += 1
-        return s.drop(('lp', lid, c)).drop_if(lambda k, vv: k[0] == 'lpsnap' and k[1] == lid)
+        return s.drop(('lp', lid, c)).drop(('fresh', lid, c)).drop_if(lambda k, vv: k[0] == 'lpsnap' and k[1] == lid)
 
     def loop_exit(self, it, s, loop):
         lc = self._loop_cursor(loop)
@@ -1275,9 +1336,23 @@ class CursorClient(Client):
             return s
         c, dirn = lc
         lid = loop.lineno
-        return s.drop(('lp', lid, c)).drop_if(lambda k, vv: k[0] == 'lpsnap' and k[1] == lid)
+        return s.drop(('lp', lid, c)).drop(('fresh', lid, c)).drop_if(lambda k, vv: k[0] == 'lpsnap' and k[1] == lid)
 
     def for_target(self, it, s, loop):
+        # an iteration of `for .. in range(n)` / `range(n - 1, -1, -1)` / `range(0, n)` is entered only when n >= 1
+        itx = loop.iter
+        if isinstance(itx, ast.Call) and isinstance(itx.func, ast.Name) and itx.func.id == 'range' and not itx.keywords:
+            nm = None
+            a = itx.args
+            if len(a) == 1 and isinstance(a[0], ast.Name):
+                nm = a[0].id
+            elif len(a) == 2 and self.p.try_const(self.f, a[0]) == 0 and isinstance(a[1], ast.Name):
+                nm = a[1].id
+            elif len(a) == 3 and self.p.try_const(self.f, a[1]) == -1 and self.p.try_const(self.f, a[2]) == -1 and isinstance(a[0], ast.BinOp) \
+                    and isinstance(a[0].op, ast.Sub) and isinstance(a[0].left, ast.Name) and self.p.try_const(self.f, a[0].right) == 1:
+                nm = a[0].left.id
+            if nm is not None and not any(isinstance(x, ast.Name) and x.id == nm and isinstance(x.ctx, ast.Store) for st in loop.body for x in ast.walk(st)):
+                s = s.set(('ge1', nm), True)
         for n in ast.walk(loop.target):
             if isinstance(n, ast.Name):
                 s = s.drop(('snap', n.id)).drop(('peek', n.id)).drop(('bool', n.id)).drop(('val', n.id))
